@@ -15,3 +15,5 @@ UNITS = [CK.unit_is_unique_init(), IF.unit_add_check_row(), IF.unit_add_field_fo
 from contracts import fields as FL
 UNITS += [CK.unit_distinct_count_init(), CK.unit_audit_first_token(), FL.unit_field_name_index()]
 UNITS += [IF.unit_add_field_format()]
+from contracts import tools as TL
+UNITS += [TL.unit_validated_python_name(), TL.unit_generated_tokens()]
